@@ -413,6 +413,26 @@ def single_game(n, g):
     return ok, seen, exp
 
 
+def _id_job(n):
+    """All game ids of a larger n through the kernel (one game per call)."""
+    from moptipyapps.ttp.game_encoding import map_games
+    tab = G.game_table(n)
+    dts = (np.int64, real_space(n, 1 if n > 2 else 2).dtype)
+    y = np.full((1, n), FILL, y_dtype(n))
+    cnt = 0
+    for g in range(n * (n - 1)):
+        home, away = int(tab[g, 0]), int(tab[g, 1])
+        for dt in dts:
+            y.fill(FILL)
+            map_games(np.array([g], dt), y)
+            cnt += 1
+            row = y[0]
+            if row[home] != away + 1 or row[away] != -(home + 1) \
+                    or int(np.count_nonzero(row)) != 2:
+                return n, cnt, g
+    return n, cnt, None
+
+
 def part_id_table(ctx, nontrivial):
     """Every game id alone through the real decoder == my ordered-pair row."""
     cnt = 0
@@ -436,9 +456,23 @@ def part_id_table(ctx, nontrivial):
                     f"{exp} in each",
                     {"kind": "single", "n": n, "g": g})
                 break
+    # larger team counts (kernel path): every id of every n up to 130
+    big = pmap(_id_job, list(range(N_MAX + 1, 131)), ctx.jobs)
+    for n, c, g in big:
+        cnt += c
+        if g is not None:
+            tab = G.game_table(n)
+            ok, seen, exp = single_game(n, g)
+            ctx.violation(
+                "decode|single game id is not the documented (home, away) "
+                "pair",
+                f"n={n} game id {g} = (home {int(tab[g, 0]) + 1}, away "
+                f"{int(tab[g, 1]) + 1}) by the documentation, decoded alone "
+                f"gives {seen[:2]} expected {exp}",
+                {"kind": "single", "n": n, "g": g})
     ctx.add("evaluations", cnt)
     ctx.add("traces_validated_against_impl", cnt)
-    ctx.part("id_table", team_counts=N_MAX - 1, single_game_decodes=cnt)
+    ctx.part("id_table", team_counts=129, single_game_decodes=cnt)
     ctx.log(f"id_table: {cnt} single-game decodes")
 
 
